@@ -157,7 +157,6 @@ package expr
 //@   params att
 //@   locals duppedBases dupper
 //@   property C13
-//@   requires att != nil
 //@   ensures* fresh.node: result != nil && fresh(result) && result != att
 //@   ensures* bases.not.shared: len(result.Bases) == len(old(att.Bases)) && (len(old(att.Bases)) > 0 ==> fresh(result.Bases))
 //@   loop 1 invariant made: len(duppedBases) == len(old(att.Bases)) && (len(old(att.Bases)) > 0 ==> fresh(duppedBases)) && dupper != nil && fresh(dupper) && dupper.uts != nil && dupper.ats != nil && fresh(dupper.ats) && fresh(dupper.uts)
